@@ -775,7 +775,7 @@ pub fn property() -> Property {
         id: "C06",
         title: "What is signed, MACed or encrypted is what is later verified or decrypted",
         rule: "histories of 0-12 builder calls per carrier (COSE_Sign1, COSE_Sign, COSE_Mac, COSE_Mac0, COSE_Encrypt, COSE_Encrypt0, COSE_recipient): field setters and every create/add helper \
-               (infallible, fallible succeeding, fallible failing with a drawn error; embedded and detached; any AAD; recipient contexts incl. refused ones) in any order and multiplicity with recording closures, \
+               (infallible, fallible succeeding, fallible failing with a drawn error; embedded and detached; any AAD; recipient contexts incl. refused ones) in any order and multiplicity with recording closures, headers drawing the algorithm from the whole IANA table / private-use / text, \
                then build, encode (tagged or untagged), decode, verify/decrypt of every signer with the creation-time and perturbed AAD / payload / headers; \
                oracle: model of the builder state; creator bytes == reference structure of the state at call time; verifier gets the stored signature/tag/ciphertext and the reference structure of the final state \
                (== creator bytes when no protected-header/payload setter follows); results passed through unchanged; failing creator yields its error and no builder; documented refusals predicted; metamorphic perturbations; \
